@@ -2884,6 +2884,10 @@ func hijackConnHandler(ctx *RequestCtx, r io.Reader, c net.Conn, s *Server, h Hi
 		releaseReader(s, br)
 	}
 	if !s.KeepHijackedConns {
+		// The request is done with. Its uploaded files go before the
+		// connection does: closing it is what tells everybody that nothing
+		// of the exchange is left.
+		ctx.Request.RemoveMultipartFormFiles()
 		c.Close()
 		s.releaseHijackConn(hjc)
 	} else if s.ReduceMemoryUsage {
